@@ -105,6 +105,9 @@ func runDiff(stmts []ast.Node, o diffOpts) (out diffOutcome) {
 			mult = 200
 		}
 		ses.StepLimit = mult*want.Stats.Steps + 100000
+		// every iterator context a loop forks costs the reference at least one evaluation step: a statement that forks
+		// more contexts than that is running away (and, with large stacks, slowly)
+		ses.ForkLimit = want.Stats.Steps + 1000
 		obs := ses.Exec(src, o.DoOut)
 		if len(obs) != 1 {
 			out.Verdict, out.Monitor = core.Violated, "differential"
@@ -136,7 +139,7 @@ func runDiff(stmts []ast.Node, o diffOpts) (out diffOutcome) {
 			fail("no-abort", fmt.Sprintf("interpreter panicked: %s (at %s, opcode %s)", got.Panic.Msg, got.Panic.Site, got.Panic.Op))
 			return
 		case got.StepLimit:
-			fail("no-abort", fmt.Sprintf("VM exceeded %d steps where the reference needed %d evaluation steps", ses.StepLimit, want.Stats.Steps))
+			fail("no-abort", fmt.Sprintf("VM exceeded %d steps (or forked more than %d iterator contexts) where the reference needed %d evaluation steps", ses.StepLimit, ses.ForkLimit, want.Stats.Steps))
 			return
 		}
 		if got.Err != want.Err {
